@@ -321,6 +321,8 @@ def jobs(tier, seed):
                      "weight": 4, "cpu_cap": 900, "wall_cap": 1500})
     # (3) definitions options
     for si, sc in enumerate(REF_SCAFFOLDS):
+        if tier == "quick" and si in (3, 5):
+            continue  # ~30 CPU-s per path (shortcut/collapsed references next to a symbolic character): thorough only
         for base in presets:
             # quick: the two options switched together (symbolic on/off) or opposite to each other; thorough: independently
             p = {"cfg": base, "scaffold": sc, "spec": spec, "name": "defs"}
@@ -332,8 +334,8 @@ def jobs(tier, seed):
     # (4) option routes
     for base in (JS, CM):
         for lo, hi in ((0, 2), (3, 5), (6, 8)):
-            jobs.append({"harness": "option_routes", "params": {"cfg": base, "name": "routes", "lo": lo, "hi": hi}, "weight": 12, "cpu_cap": 1500, "wall_cap": 2400,
-                         "path_cap": 90})
+            jobs.append({"harness": "option_routes", "params": {"cfg": base, "name": "routes", "lo": lo, "hi": hi}, "weight": 12, "cpu_cap": 2400, "wall_cap": 3600,
+                         "path_cap": 240})
     return jobs
 
 
